@@ -605,6 +605,8 @@ static int cb_request_complete(htp_tx_t *tx) { COST_PAUSE;
     runctx *x = cur; if (!x) return HTP_OK;
     txrec *t = on_tx_event(x, HK_REQUEST_COMPLETE, tx, 0, RK_COMPLETE, 1);
     if (t) { t->complete_cb[0]++; end_of_side(x, t, 0); t->view[0] = side_view(tx, 0); t->view_set[0] = 1; }
+    /* the progress indicator says what the callback says: a side whose COMPLETE callback runs is complete */
+    if (t && tx->request_progress != HTP_REQUEST_COMPLETE) { CHECK(x); viol(x, "C05", "req_complete_cb_progress", "tx %d REQUEST_COMPLETE delivered while request_progress is %d", t->ord, (int) tx->request_progress); }
     return scripted_rc(x, HK_REQUEST_COMPLETE);
 }
 
@@ -612,6 +614,7 @@ static int cb_response_complete(htp_tx_t *tx) { COST_PAUSE;
     runctx *x = cur; if (!x) return HTP_OK;
     txrec *t = on_tx_event(x, HK_RESPONSE_COMPLETE, tx, 1, RK_COMPLETE, 1);
     if (t) { t->complete_cb[1]++; end_of_side(x, t, 1); t->view[1] = side_view(tx, 1); t->view_set[1] = 1; }
+    if (t && tx->response_progress != HTP_RESPONSE_COMPLETE) { CHECK(x); viol(x, "C05", "res_complete_cb_progress", "tx %d RESPONSE_COMPLETE delivered while response_progress is %d", t->ord, (int) tx->response_progress); }
     return scripted_rc(x, HK_RESPONSE_COMPLETE);
 }
 
